@@ -5,13 +5,34 @@ package reader
 // Contracts for the verification machinery in /verif (comment-only file; compiled
 // only with -tags verif and adds no code).
 
-//@ spec wfr(lr) = lr != nil && 0 <= lr.pos && lr.pos <= len(lr.runes)
+//@ spec wfr(lr) = 0 <= lr.pos && lr.pos <= len(lr.runes) && sep(lr)
+//@ # the push-back history never shares its backing array with the input
+//@ spec sep(lr) = arrof(lr.history) == 0 || arrof(lr.history) != arrof(lr.runes)
 //@ spec M(lr) = 8*(len(lr.runes)-lr.pos) + 2*len(lr.history) + ite(lr.ungetFlg, ite(lr.char != 0, 2, 1), 0)
 //@ spec sameInput(lr) = lr.runes == old(lr.runes)
+//@ # rune 0 is the end-of-input marker: the input itself contains none (established by New)
+//@ spec noNUL(lr) = forall(i, 0 <= i && i < len(lr.runes) ==> lr.runes[i] != 0)
+//@ # ... so a pending or pushed-back rune 0 can only stem from the end of the input
+//@ spec zeroEOF(lr) = (lr.ungetFlg && lr.char == 0 ==> lr.pos == len(lr.runes) && len(lr.history) == 0)
+//@     && forall(k, offof(lr.history) <= k && k < offof(lr.history) + len(lr.history) && absat(lr.history, k) == 0
+//@                  ==> lr.pos == len(lr.runes) && k == offof(lr.history) + len(lr.history) - 1)
+//@ spec atEOF(lr) = lr.pos == len(lr.runes) && len(lr.history) == 0 && (lr.ungetFlg ==> lr.char == 0)
+
+//@ func ti/lexer/reader.replaceNUL
+//@   safe
+//@   terminates
+//@   ensures result == runes
+//@   ensures forall(i, 0 <= i && i < len(result) ==> result[i] != 0)
+//@   loop 0 invariant -1 <= rangeindex && forall(j, 0 <= j && j <= rangeindex ==> runes[j] != 0)
+//@   loop 0 decreases len(runes) - rangeindex
+
+//@ func ti/lexer/reader.New
+//@   safe
+//@   ensures wfr(result) && noNUL(result) && zeroEOF(result) && result.pos == 0 && len(result.history) == 0 && !result.ungetFlg
 
 //@ func (*ti/lexer/reader.LexerReader).Read
 //@   safe
-//@   requires wfr(lr)
+//@   requires lr != nil && wfr(lr)
 //@   ensures wfr(lr) && sameInput(lr)
 //@   ensures old(lr.ungetFlg) ==> result == old(lr.char) && !lr.ungetFlg && lr.char == old(lr.char)
 //@        && lr.pos == old(lr.pos) && lr.history == old(lr.history)
@@ -23,3 +44,5 @@ package reader
 //@        && lr.pos == old(lr.pos) + 1 && lr.history == old(lr.history)
 //@   ensures M(lr) <= old(M(lr))
 //@   ensures result != 0 ==> M(lr) < old(M(lr))
+//@   ensures[C03] old(noNUL(lr)) && old(zeroEOF(lr)) && result == 0 ==> lr.pos == len(lr.runes) && len(lr.history) == 0
+//@   ensures[C03] old(noNUL(lr)) && old(zeroEOF(lr)) ==> zeroEOF(lr)
